@@ -9,7 +9,7 @@ import numpy as np
 from jax import numpy as jnp
 from jax import random as jr
 
-from lerax.algorithm import DQN, PPO
+from lerax.algorithm import A2C, DQN, PPO, REINFORCE
 from lerax.benchmark import average_reward
 from lerax.callback import (AbstractCallbackStepState, AbstractStepCallback, CallbackList,
                             LoggingCallback, LoggingCallbackStepState)
@@ -157,7 +157,155 @@ def check_training(ctx, idx):
                          key="log:record-values")
 
 
+def check_logged_return_from_tables(ctx, idx):
+    """Logged episode statistics against rewards reconstructed INDEPENDENTLY of anything the algorithm
+    calls 'reward': the environment is a deterministic finite MDP (one noise value), so the reward the
+    environment paid at every step follows from the recorded (state, action) pairs and the tables:
+    s' = T[s, a], r = Rw[s, a, s'], done = term[s'] or trunc[s'] or clock + 1 >= time limit."""
+    from .common.collect import collect
+    rng = ctx.rng
+    which = ["PPO", "A2C", "REINFORCE"][idx % 3]
+    env0 = random_tabular(rng, n_noise=1, p_term=0.1, p_trunc=0.0, dyadic=True)
+    N = int(rng.integers(2, 6))
+    env = TimeLimit(env0, N)
+    E, T = int(rng.choice([1, 2])), int(rng.integers(4, 10))
+    alpha = float(rng.choice([0.1, 0.5, 0.9]))
+    algo = {"PPO": lambda: PPO(num_envs=E, num_steps=T, num_epochs=1, num_batches=1, gamma=0.9),
+            "A2C": lambda: A2C(num_envs=E, num_steps=T, gamma=0.9),
+            "REINFORCE": lambda: REINFORCE(num_envs=E, num_steps=T, gamma=0.9)}[which]()
+    policy = random_ac_policy(rng, env0)
+    # critic values far from zero, so that a value-bootstrapped reward would be visible
+    policy = eqx.tree_at(lambda p: p.values, policy, policy.values + 3.0)
+    cb = LoggingCallback(RecordingBackend(), name="verif", alpha=alpha)
+    key = jr.key(int(rng.integers(0, 2**31)))
+    pre, post, buf, run = collect(algo, env, policy, key, callback=cb)
+    Tt, Rw = np.asarray(env0.T), np.asarray(env0.Rw, np.float64)
+    term, trunc = np.asarray(env0.term), np.asarray(env0.trunc)
+    hist = [([], []) for _ in range(E)]
+    for rollout in range(ctx.budget(2, 4)):
+        if rollout > 0:
+            key, kk = jr.split(key)
+            post, buf = run(post, kk)
+        for e in range(E):
+            be = slice_env(buf, e, E)
+            obs = np.asarray(be.observations, np.float64)
+            acts = np.asarray(be.actions).astype(int).reshape(T)
+            for t in range(T):
+                s0, clock, a = int(obs[t, 0]), int(obs[t, 1]), int(acts[t])
+                s1 = int(Tt[s0, a, 0])
+                hist[e][0].append(float(Rw[s0, a, s1]))
+                hist[e][1].append(bool(term[s1] or trunc[s1] or clock + 1 >= N))
+            ls = slice_env(post.callback_state, e, E)
+            impl = {"step": int(ls.step), "average_return": float(ls.average_return),
+                    "average_length": float(ls.average_length)}
+            rs, ds = np.asarray(hist[e][0], np.float64), np.asarray(hist[e][1])
+            m = ctx.drv.call("log_run", alpha=alpha, rewards=rs, dones=ds, impl=impl, tol=ctx.tol(64.0))
+            case = {"kind": "training-log-vs-tables", "algo": which, "E": E, "T": T, "time_limit": N, "rollout": rollout,
+                    "env": e, "alpha": alpha, "rewards_the_environment_paid": rs, "episode_ends": ds, "impl": impl,
+                    "model_ema_return": m["ema_return"], "model_ema_length": m["ema_length"]}
+            ctx.case({"idx": idx, "r": rollout, "e": e, "rs": rs}, bool(ds.any()))
+            ctx.count("training-vs-tables:env-histories")
+            ctx.count("training-vs-tables:truncated-only-episode-ends",
+                      int(sum(1 for i in range(len(ds)) if ds[i])))
+            if not m["phi"]["phi"]:
+                ctx.phi_fail(m["phi"]["clause"], case, key="log:tables:" + m["phi"]["clause"])
+                return
+
+
 # ------------------------------------------------------------------ evaluation helper
+
+class _CoinState(eqx.Module):
+    t: jax.Array
+
+
+def check_average_reward_stochastic_terminal(ctx):
+    """An environment whose `terminal` uses its key (allowed by the interface): +1 per step, every reached
+    state is terminal with probability 1/2.  'Each episode ends at its first terminal state' makes the
+    return geometric (mean 2, variance 2); an evaluation that re-tests a finished episode with fresh
+    keys and resumes it reports far more.  Statistical clause: mean of 512 episodes within +-0.45
+    (7 standard errors), every return an integer in [1, max_steps]."""
+    from typing import ClassVar
+
+    from lerax.env import AbstractEnv, AbstractEnvState
+    from lerax.policy import AbstractPolicy
+    from lerax.space import Box, Discrete
+
+    class CoinState(AbstractEnvState):
+        t: jax.Array
+
+    class CoinEnv(AbstractEnv):
+        name: ClassVar[str] = "Coin"
+        action_space: Discrete
+        observation_space: Box
+
+        def __init__(self):
+            self.action_space, self.observation_space = Discrete(2), Box(0.0, 1e6, shape=(1,))
+
+        def initial(self, *, key):
+            return CoinState(jnp.array(0))
+
+        def action_mask(self, state, *, key):
+            return None
+
+        def transition(self, state, action, *, key):
+            return CoinState(state.t + 1)
+
+        def observation(self, state, *, key):
+            return jnp.asarray([state.t], dtype=float)
+
+        def reward(self, state, action, next_state, *, key):
+            return jnp.array(1.0)
+
+        def terminal(self, state, *, key):
+            return jr.bernoulli(key, 0.5)
+
+        def truncate(self, state):
+            return jnp.array(False)
+
+        def state_info(self, state):
+            return {}
+
+        def transition_info(self, state, action, next_state):
+            return {}
+
+        def default_renderer(self):
+            raise NotImplementedError
+
+        def render(self, state, renderer):
+            raise NotImplementedError
+
+    class ZeroPolicy(AbstractPolicy):
+        name: ClassVar[str] = "Zero"
+        action_space: Discrete
+        observation_space: Box
+
+        def __init__(self, env):
+            self.action_space, self.observation_space = env.action_space, env.observation_space
+
+        def reset(self, *, key):
+            return None
+
+        def __call__(self, state, observation, *, key=None, action_mask=None):
+            return None, jnp.array(0)
+
+    env = CoinEnv()
+    policy = ZeroPolicy(env)
+    from lerax.benchmark import rollout_scan
+    for max_steps in (32, 64):
+        keys = jr.split(jr.key(int(ctx.rng.integers(0, 2**31))), 512)
+        rets = np.asarray(jax.jit(jax.vmap(lambda k: rollout_scan(env, policy, key=k, deterministic=True,
+                                                                 max_steps=max_steps)))(keys), np.float64)
+        avg = float(average_reward(env, policy, num_episodes=512, max_steps=max_steps, deterministic=True,
+                                   key=jr.key(int(ctx.rng.integers(0, 2**31)))))
+        case = {"kind": "average_reward-stochastic-terminal", "max_steps": max_steps, "episodes": 512,
+                "mean_return_rollout_scan": float(rets.mean()), "average_reward": avg, "expected_mean": 2.0,
+                "max_return": float(rets.max()), "histogram": np.bincount(rets.astype(int))[:12]}
+        ctx.case(case, True)
+        ctx.count("average_reward:stochastic-terminal")
+        integral = bool(np.all(rets == np.round(rets)) and rets.min() >= 1 and rets.max() <= max_steps)
+        if not (integral and abs(rets.mean() - 2.0) < 0.45 and abs(avg - 2.0) < 0.45):
+            ctx.phi_fail("average_reward_is_mean_undiscounted_return_to_first_done_or_cap", case,
+                         key="eval:stochastic-terminal")
 
 def check_average_reward(ctx, idx):
     rng = ctx.rng
@@ -204,5 +352,9 @@ def run(ctx):
     for i in range(ctx.budget(4, 16)):
         check_training(ctx, i)
         ctx.gc(4)
+    for i in range(ctx.budget(3, 12)):
+        check_logged_return_from_tables(ctx, i)
+        ctx.gc(4)
+    check_average_reward_stochastic_terminal(ctx)
     for i in range(ctx.budget(12, 60)):
         check_average_reward(ctx, i)
